@@ -165,7 +165,7 @@ fn check_jobs_match(ctx: &CheckerContext) -> GenericResult<()> {
                         move |(idx, activity)| {
                             match stop {
                                 Stop::Point(stop) => {
-                                    let result = try_match_point_job(tour, stop, activity, job_index, coord_index);
+                                    let result = try_match_point_job(tour, stop, activity, job_index, coord_index, &|_| true);
                                     match result {
                                         Err(_) => {
                                             // NOTE required break is not a job
